@@ -68,6 +68,16 @@ def make_tree(root):
     open(os.path.join(root, "sib", "sib.go"), "w").write("package sib\n\n// X is here.\ntype X int\n")
     open(os.path.join(root, "bad", "bad.go"), "w").write("package bad\n\nfunc broken( {\n")
     open(os.path.join(root, "plainfile"), "w").write("not a directory\n")
+    # a second module whose go.mod the go command considers out of date (a direct dependency marked
+    # `// indirect`, resolved through a local replace): nothing may "tidy" it (C18)
+    os.makedirs(os.path.join(root, "mod2", "svc2"))
+    os.makedirs(os.path.join(root, "lib2"))
+    open(os.path.join(root, "mod2", "go.mod"), "w").write(
+        "module example.com/app\n\ngo 1.24\n\nrequire example.com/lib v0.0.0 // indirect\n\nreplace example.com/lib => ../lib2\n")
+    open(os.path.join(root, "lib2", "go.mod"), "w").write("module example.com/lib\n\ngo 1.24\n")
+    open(os.path.join(root, "lib2", "lib.go"), "w").write("package lib\n\n// Item is used by svc2.\ntype Item struct{ ID int }\n")
+    open(os.path.join(root, "mod2", "svc2", "svc.go"), "w").write(
+        'package svc2\n\nimport "example.com/lib"\n\n// Good uses the dependency.\ntype Good interface {\n\tPush(item lib.Item) error\n}\n')
 
 
 def scenarios(rnd, tier):
@@ -77,6 +87,7 @@ def scenarios(rnd, tier):
                [":X"], ["Good", ""], ["Gööd"]]
     outs = [None, "svc/good_moq.go", "svc/sub/deep/mock.go", "gen/mocks/out.go", "plainfile/x.go", "svc"]
     priors = ["absent", "own", "garbage", "stale", "dirnonempty"]
+    # (three more kinds of prior content - ownlonger, ownnoop, ownresets - are used below)
     # systematic core
     for args in argsets:
         for out in (None, "svc/good_moq.go"):
@@ -100,6 +111,18 @@ def scenarios(rnd, tier):
         for rm in (False, True):
             S.append(dict(srcdir="svc", args=["Good", "Other"], out="svc/good_moq.go", rm=rm, prior=prior, flags=[], abs=True))
             S.append(dict(srcdir="./svc/", args=["Good", "Other"], out="./svc/../svc/good_moq.go", rm=rm, prior=prior, flags=[]))
+    # regeneration over an earlier output that is longer (more interfaces), differently laid out
+    # (-fmt noop) or differently configured: the file must end up exactly what the command prints
+    for prior in ("ownlonger", "ownnoop", "ownresets"):
+        for rm in (False, True):
+            for args in (["Good"], ["Good:MyGood", "Other"]):
+                S.append(dict(srcdir="svc", args=args, out="svc/good_moq.go", rm=rm, prior=prior, flags=[]))
+            S.append(dict(srcdir="svc", args=["Good"], out="gen/mocks/out.go", rm=rm, prior=prior, flags=["-pkg", "mocks"]))
+            S.append(dict(srcdir="svc", args=["Good"], out="svc/good_moq.go", rm=rm, prior=prior, flags=["-fmt", "gofmt"]))
+    # the module with the out-of-date go.mod: success, failure, with and without -out
+    for args in (["Good"], ["Nope"]):
+        for out in (None, "mod2/svc2/good_moq.go", "mod2/mocks/out.go"):
+            S.append(dict(srcdir="mod2/svc2", args=args, out=out, rm=False, prior="absent", flags=[]))
     S.append(dict(srcdir="svc", args=["Good:1x"], out="svc/good_moq.go", rm=False, prior="own", flags=[]))
     S.append(dict(srcdir="svc", args=["Good:1x"], out=None, rm=False, prior="absent", flags=[]))
     if tier == "thorough":
@@ -133,6 +156,8 @@ def prime(root, s, own_text):
     os.makedirs(os.path.dirname(p), exist_ok=True)
     if s["prior"] == "own":
         open(p, "w").write(own_text)
+    elif s["prior"] in ("ownlonger", "ownnoop", "ownresets"):
+        open(p, "w").write(own_text)
     elif s["prior"] == "garbage":
         open(p, "w").write("\x00\x01 this is not go {{{\n")
     elif s["prior"] == "stale":
@@ -142,12 +167,16 @@ def prime(root, s, own_text):
 def run_cli(moq, root, s, timeout=60):
     t0 = time.time()
     try:
-        p = subprocess.run([moq] + moq_cmd(s, root), cwd=root, env=pool.GOENV, capture_output=True, text=True,
+        p = subprocess.run([moq] + moq_cmd(s, root), cwd=root, env=CLIENV, capture_output=True, text=True,
                            timeout=timeout, errors="replace")
         return dict(rc=p.returncode, stdout=p.stdout, stderr=p.stderr, wall=time.time() - t0)
     except subprocess.TimeoutExpired:
         return dict(rc=None, stdout="", stderr="TIMEOUT", wall=time.time() - t0)
 
+
+# the moq runs of this stage get no GOFLAGS (with -mod=mod in the environment the go command may
+# rewrite go.mod on its own account; the scratch modules need nothing fetched)
+CLIENV = {k: v for k, v in pool.GOENV.items() if k != "GOFLAGS"}
 
 ALLOWED = re.compile(r"^(interface not found: |.* is not an interface$|go/format: |goimports: |couldn't load source package: |"
                      r"must specify one interface|not enough arguments|remove |mkdir |open )")
@@ -159,11 +188,31 @@ def one(moq, base, s, own_cache):
     try:
         shutil.copytree(base, root, dirs_exist_ok=True)
         # what moq itself would write for this configuration (for prior = own)
-        key = (s["srcdir"], tuple(s["args"]), tuple(s["flags"]))
-        if s["prior"] == "own" and key not in own_cache:
-            r0 = run_cli(moq, root, dict(s, out=None, rm=False))
+        key = (s["srcdir"], tuple(s["args"]), tuple(s["flags"]), s["prior"])
+        if s["prior"] in ("own", "ownlonger", "ownnoop", "ownresets") and key not in own_cache:
+            v = dict(s, out=None, rm=False)
+            if s["prior"] == "ownlonger":
+                v["args"] = list(s["args"]) + ["Gen", "Other:ZOther"]
+            elif s["prior"] == "ownnoop":
+                v["flags"] = [f for f in s["flags"] if f not in ("-fmt", "gofmt")] + ["-fmt", "noop"]
+            elif s["prior"] == "ownresets":
+                v["flags"] = list(s["flags"]) + ["-with-resets", "-stub"]
+            r0 = run_cli(moq, root, v)
             own_cache[key] = r0["stdout"] if r0["rc"] == 0 else "package svc\n"
         prime(root, s, own_cache.get(key, ""))
+        # what the same command prints when no -out is given, in the same tree (the prior content in
+        # place unless -rm removes it first): on success the file must be exactly this
+        ref = None
+        if s["out"] and s["prior"] != "dirnonempty":
+            ref_root = tempfile.mkdtemp(prefix="moqverif-cliref-")
+            try:
+                shutil.copytree(base, ref_root, dirs_exist_ok=True)
+                if not s["rm"]:
+                    prime(ref_root, s, own_cache.get(key, ""))
+                r1 = run_cli(moq, ref_root, dict(s, out=None, rm=False))
+                ref = r1["stdout"] if r1["rc"] == 0 else None
+            finally:
+                shutil.rmtree(ref_root, ignore_errors=True)
         before = snapshot(root)
         r = run_cli(moq, root, s)
         after = snapshot(root)
@@ -219,6 +268,16 @@ def one(moq, base, s, own_cache):
                     if "DO NOT EDIT" not in text.splitlines()[0:1][0] if text else True:
                         verdicts["C17"] = "success, but the -out file is not a complete generated file"
                     r["file"] = text
+                    if ref is not None and text != ref:
+                        which = ["C17"]
+                        mocks_file = sorted(set(re.findall(r"^type (\w+) struct", text, re.M)))
+                        mocks_ref = sorted(set(re.findall(r"^type (\w+) struct", ref, re.M)))
+                        if mocks_file != mocks_ref:
+                            which.append("C20")
+                        if not any(f == "noop" for f in s["flags"]):
+                            which.append("C16")
+                        verdicts["+".join(which)] = ("success, but the -out file is not what the same command prints to standard output "
+                                                     "(%d vs %d bytes; mock types in the file %s, expected %s)" % (len(text), len(ref), mocks_file, mocks_ref))
             else:
                 if not r["stdout"].startswith("// Code generated by moq; DO NOT EDIT."):
                     verdicts["C17"] = "success, but standard output is not the generated file"
@@ -351,7 +410,7 @@ def _run(cdir, seed, tier, log):
                 res["violations"].append({"id": o["id"] + "-regen", "props": ["C15"],
                                           "what": "regeneration over moq's own output fails: " + o["stderr"][:200], "scenario": s})
             for k, v in o["verdicts"].items():
-                res["violations"].append({"id": o["id"], "props": [k], "what": v, "scenario": s,
+                res["violations"].append({"id": o["id"], "props": k.split("+"), "what": v, "scenario": s,
                                           "cmd": "moq " + " ".join(moq_cmd(s)), "rc": o["rc"], "stderr": o["stderr"]})
         res["coverage"] = {"cli_scenarios": len(S), "cli_failures_observed": sum(1 for o in obs if o["rc"] == 1),
                            "cli_successes_observed": sum(1 for o in obs if o["rc"] == 0),
